@@ -33,7 +33,8 @@ MANIFEST = {
     "text": "Bounded symbolic: the matching heuristic is decided by z3 for all paths within the bound; reference/import "
             "closure over all outputs is decided by CrossHair for every configuration of the bounded model grammar.",
     "note": "Trusted: z3/CrossHair, recogniser. Known findings: alias re-exports, naming conversion, module-id prefix, "
-            "character-level suffix matching.",
+            "character-level suffix matching, bare names that are no class, namesake of a re-exported class, built-in "
+            "classes without Safe-DS counterpart.",
     "technique": "AST->SMT encoding of the path matcher (z3) + CrossHair symbolic execution of the generator with a closure oracle over recognised outputs",
 }
 
